@@ -331,3 +331,24 @@ def whole_value_overwrites(prog, adt_names, skip=lambda b: False):
             if g and any(norm(str(x)).split("<", 1)[0] in adt_names for x in g[:1]):
                 out.append(s)
     return out
+
+
+def field_escapes(prog, owner_adt, field, skip=lambda b: False):
+    """Sites that create a way to modify `owner_adt.field` other than a direct assignment: a `&mut` borrow or a raw
+    pointer taken to the field (or to a place inside it). Used with writer inventories of plain (non-atomic) counters."""
+    from ..core import norm
+    out = []
+    for b in prog.all_bodies():
+        if skip(b):
+            continue
+        for s in b.assigns():
+            r = s.node["r"]
+            if r["r"] == "ref" and not r.get("mut"):
+                continue
+            if r["r"] not in ("ref", "rawptr"):
+                continue
+            for el in r["pl"]["p"]:
+                if el != "*" and el[0] == "f" and el[2] == field and norm(el[3]) == owner_adt:
+                    out.append(s)
+                    break
+    return out
